@@ -327,8 +327,8 @@ func cmdCheck(prop, tier string) int {
 	if err := agg.write(filepath.Join(verifDir, "evidence", prop+".json"), src); err != nil {
 		return fatal2("evidence: %v", err)
 	}
-	fmt.Printf("simdrive: %s %s: %d worlds, %d lifetimes, %d calls, %d scheduler steps in %.1fs; %d violations of %s, %d known-finding hits, %d cross findings\n",
-		prop, tier, agg.worlds, agg.lifetimes, agg.calls, agg.steps, agg.wall.Seconds(), agg.violations, prop, sumInts(knownHit), len(cross))
+	fmt.Printf("simdrive: %s %s: %d worlds, %d lifetimes, %d calls, %d scheduler steps in %.1fs; %d violations of %s (distinct oracles; %d violating worlds), %d known-finding hits, %d cross findings\n",
+		prop, tier, agg.worlds, agg.lifetimes, agg.calls, agg.steps, agg.wall.Seconds(), agg.violations, prop, len(mine), sumInts(knownHit), len(cross))
 	for _, w := range agg.reachWarnings() {
 		fmt.Println("REACH-WARNING", w)
 	}
